@@ -26,7 +26,9 @@
 (*   5 the round level, implementation shaped: one OFFERS round as the code *)
 (*     runs it (per offer, per descriptor, remaining resources); RoundSpec  *)
 (*     explores the rounds of a small catalogue, RoundOK says the outcome   *)
-(*     satisfies PlacementOK.                                               *)
+(*     satisfies PlacementOK.  The same operators (RoundStart, OfferResult, *)
+(*     FinalOf) are the conformance reference for rounds recorded from the  *)
+(*     real core (PlacementTrace).                                          *)
 (*                                                                         *)
 (* Units: cpu numbers are integers in ONE unit throughout a round/case      *)
 (* (the drivers use milli-cores, round(1000*cpus), so that the executor     *)
